@@ -6,6 +6,9 @@ from .c20 import effects_of
 
 
 def run(rep, prog, tier):
+    from .hidden import no_hidden_state
+    rep.rule('R16.state', 'no hidden state in the anchored modules: no function writes a module-level object, no caching decorator / cached property')
+    no_hidden_state(rep, 'R16.state', prog, ['Network/transformers.py', 'Network/network.py'])
     rep.rule('R16.pure', 'no function of Network/transformers.py writes through its network / keep parameter (effect analysis)')
     rep.rule('R16.thread', 'every transformer returns Network(..., node_zero_label=<input label>) (switch_ground_node: the new label)')
     rep.rule('R16.keep', 'exemption list forwarded to every inner call that accepts it')
